@@ -5,7 +5,7 @@ LEVEL = "proof"
 
 
 def run(chk):
-    build, oracle, tables = emucheck.setup(chk, extra_units=("guards",))
+    build, oracle, tables = emucheck.setup(chk, extra_units=("guards", "chan", "sys"))
     chk.assumptions = ["a remote affinity change to the CPU the thread is already on is refused by the emulator; the property does not "
                        "say, so the decider demands nothing for it", "distinct clocks per event"]
     rng = chk.rng
